@@ -1,5 +1,10 @@
 //@ props: C03,C16
 //@ target: src/observable/from_iter.rs
+//@ thorough-subst: [u8; 3] ==> [u8; 5]
+//@ thorough-subst: kani::assume(n <= 3) ==> kani::assume(n <= 5)
+//@ thorough-subst: kani::unwind(5) ==> kani::unwind(7)
+//@ thorough-subst: kani::assume(k <= 4) ==> kani::assume(k <= 6)
+//@ thorough-note: length <= 5
 // from_iter / repeat — src/observable/from_iter.rs ObservableIter::actual_subscribe
 // (`self.0.into_iter()` over a generic iterator: outside Verus' for-loop support)
 use crate::verif_probe::*;
